@@ -16,7 +16,13 @@
         R  model-free round trip: the real silk_Decode (normal decoding) runs on the finished bytes; wrappers around
            silk_decode_indices / silk_decode_pulses record every frame it reads; `ok` iff that sequence (channel, frame,
            LBRR flag, every index, every pulse) is the sequence the encoder-side wrappers recorded
-   Modes: rand <seed> <n streams> */
+   Second op (mode `oframe`): the REAL opus_encode, forced to SILK-only mode (VBR, no mode switches, hence no redundancy),
+   with the same recording wrappers; the Lean model OpusModel.OpusFrameEnc.silkOnlyFrame — SILK payload, ret = (ec_tell+7)>>3,
+   ec_enc_done, trailing-zero strip — must reproduce the packet's payload bytes and OPUS_GET_FINAL_RANGE:
+     rangecoder oframe <max_data_bytes> <fill> <bandwidth> <nCh> <ms10> <flags> <records>
+        the caller's output buffer is pre-filled: byte j behind the TOC byte = (fill + 37*j) % 256
+     answer: P <hex payload (packet without TOC)> F <final range>
+   Modes: rand <seed> <n streams> | oframe <seed> <n streams> */
 #ifdef HAVE_CONFIG_H
 #include "config.h"
 #endif
@@ -24,6 +30,7 @@
 #include <math.h>
 #include <stdarg.h>
 #include "opus.h"
+#include "opus_private.h"
 #include "silk/main.h"
 #include "silk/API.h"
 #include "silk/control.h"
@@ -244,6 +251,49 @@ static void run_stream(vrng *r)
    free(psEnc); free(buf); free(decSt);
 }
 
+static long o_packets, o_skipped, o_stereo, o_stripped;
+static void run_ostream(vrng *r)
+{
+   static const int BW[] = {OPUS_BANDWIDTH_NARROWBAND, OPUS_BANDWIDTH_MEDIUMBAND, OPUS_BANDWIDTH_WIDEBAND}, MS[] = {10, 20, 20, 40, 60};
+   int bwi = (int)vbelow(r, 3), nch = vchance(r, 50) ? 2 : 1, ms = MS[vbelow(r, 5)], npk = vrange(r, 3, 12), p, i, err = 0;
+   int fs = 16000, nsamp = fs / 1000 * ms, left = 0; seg_t sg; static float pcmf[2 * 960]; static opus_int16 pcm16[2 * 960];
+   OpusEncoder *enc = opus_encoder_create(fs, nch, OPUS_APPLICATION_VOIP, &err);
+   memset(&sg, 0, sizeof sg);
+   if (!enc || err) { printf("# opus_encoder_create failed\n"); return; }
+   opus_encoder_ctl(enc, OPUS_SET_FORCE_MODE(MODE_SILK_ONLY));
+   opus_encoder_ctl(enc, OPUS_SET_BANDWIDTH(BW[bwi]));
+   opus_encoder_ctl(enc, OPUS_SET_VBR(1)); opus_encoder_ctl(enc, OPUS_SET_DTX(0));
+   opus_encoder_ctl(enc, OPUS_SET_BITRATE(nch * vrange(r, 6, 40) * 1000));
+   opus_encoder_ctl(enc, OPUS_SET_COMPLEXITY(vrange(r, 0, 10)));
+   if (nch == 2) opus_encoder_ctl(enc, OPUS_SET_FORCE_CHANNELS(vchance(r, 70) ? 2 : OPUS_AUTO));
+   if (vchance(r, 60)) { opus_encoder_ctl(enc, OPUS_SET_INBAND_FEC(1)); opus_encoder_ctl(enc, OPUS_SET_PACKET_LOSS_PERC(vrange(r, 5, 30))); }
+   for (p = 0; p < npk; p++) {
+      static unsigned char out[1500]; int maxb = vchance(r, 30) ? vrange(r, 150, 400) : 1276, len, bad = 0, config, nfpp, nb, k, toc;
+      unsigned fill = vbelow(r, 256); opus_uint32 rng = 0; static const int MS10[] = {100, 200, 400, 600};
+      fill_audio(r, &sg, &left, pcmf, nsamp, nch, fs);
+      for (i = 0; i < nsamp * nch; i++) { float v = pcmf[i] * 32767.0f; pcm16[i] = (opus_int16)(v > 32767 ? 32767 : v < -32768 ? -32768 : v); }
+      out[0] = 0; for (i = 1; i < (int)sizeof out; i++) out[i] = (unsigned char)((fill + 37u * (unsigned)(i - 1)) % 256u);
+      recn = 0; rec[0] = 0; rec_on = 1; rec_overflow = 0; have_pred = have_mid = 0; last_valid = 0; n_patch = 0; flags_word = 0; flags_bits = 0;
+      memset(calls_this_frame, 0, sizeof calls_this_frame); nefr = 0;
+      len = opus_encode(enc, pcm16, nsamp, out, maxb);
+      rec_on = 0;
+      if (len < 0) { printf("# opus_encode returned %d\n", len); break; }
+      opus_encoder_ctl(enc, OPUS_GET_FINAL_RANGE(&rng));
+      toc = out[0]; config = toc >> 3;
+      for (i = 0; i < 3; i++) if (calls_this_frame[0][i] > 1 || calls_this_frame[1][i] > 1) bad = 1;
+      if (len < 2 || config >= 12 || (toc & 3) != 0 || bad || n_patch != 1 || rec_overflow) { o_skipped++; continue; }
+      nfpp = (config & 3) <= 1 ? 1 : (config & 3); nb = (config & 3) == 0 ? 2 : 4; k = (nfpp + 1) * (((toc >> 2) & 1) + 1);
+      if (flags_bits != k) { o_skipped++; continue; }
+      if (recn && rec[recn - 1] == ';') rec[--recn] = 0;
+      (void)nb;
+      printf("I rangecoder oframe %d %u %d %d %d %u %s\n", maxb, fill, 1101 + (config >> 2), ((toc >> 2) & 1) + 1, MS10[config & 3], flags_word, recn ? rec : "-");
+      printf("O P "); vhex(stdout, out + 1, len - 1); printf(" F %u\n", (unsigned)rng);
+      o_packets++; if ((toc >> 2) & 1) o_stereo++;
+      fflush(stdout);
+   }
+   opus_encoder_destroy(enc);
+}
+
 int main(int argc, char **argv)
 {
    vinstall_traps();
@@ -252,6 +302,10 @@ int main(int argc, char **argv)
       for (i = 0; i < n; i++) { vrng r; r.s = vnext(&m); run_stream(&r); }
       printf("# spacket streams=%ld packets=%ld stereo=%ld regular-frames=%ld lbrr-frames=%ld mid-only-flags-set=%ld err=%ld round-trip-diffs=%ld skipped: re-coded %ld config %ld\n",
          n, n_packets, n_stereo, n_frames, n_lbrr_frames, n_midonly, n_err, n_rt_diff, n_multi_iter, n_mismatch_cfg);
-   } else { fprintf(stderr, "usage: c08_silkpacket rand <seed> <n>\n"); return 64; }
+   } else if (argc >= 4 && !strcmp(argv[1], "oframe")) {
+      vrng m; long i, n = atol(argv[3]); m.s = strtoull(argv[2], 0, 10) * 0x9E3779B97F4A7C15ULL + 0xC08F4A3EULL;
+      for (i = 0; i < n; i++) { vrng r; r.s = vnext(&m); run_ostream(&r); }
+      printf("# oframe streams=%ld packets=%ld stereo=%ld skipped=%ld\n", n, o_packets, o_stereo, o_skipped);
+   } else { fprintf(stderr, "usage: c08_silkpacket rand|oframe <seed> <n>\n"); return 64; }
    return 0;
 }
